@@ -5,6 +5,7 @@ package main
 import (
 	"encoding/hex"
 	"fmt"
+	"math/big"
 	"sort"
 	"strconv"
 	"strings"
@@ -14,6 +15,8 @@ import (
 	"github.com/bytom/bytom/protocol/bc"
 	"github.com/bytom/bytom/protocol/bc/types"
 	"github.com/bytom/bytom/protocol/state"
+	"github.com/bytom/bytom/protocol/vm"
+	"github.com/bytom/bytom/protocol/vm/vmutil"
 )
 
 // Shared by the C14 and C15 harnesses: abstract checkpoints / blocks <-> the real
@@ -29,6 +32,42 @@ type ecTx struct {
 	votes  []ecPair
 	spend  uint64 // extra BTM spend input (0 = none)
 	out    uint64 // extra BTM original output (0 = none)
+	burn   uint64 // BTM sent to an unspendable (OP_FAIL) program: a Retirement entry (0 = none)
+	burnK  int    // 0: bare OP_FAIL, 1: vmutil.RetireProgram(comment), 2: vmutil.RegisterProgram(contract) (BCRP)
+}
+
+// ecFee is the transaction's fee computed by the harness itself: BTM of all inputs minus BTM of
+// ALL outputs (vote outputs, ordinary outputs and retirements), clamped at 0.
+func (t ecTx) ecFee() uint64 {
+	in := new(big.Int).SetUint64(t.spend)
+	for _, v := range t.vetoes {
+		in.Add(in, new(big.Int).SetUint64(v.val))
+	}
+	out := new(big.Int).SetUint64(t.out)
+	out.Add(out, new(big.Int).SetUint64(t.burn))
+	for _, v := range t.votes {
+		out.Add(out, new(big.Int).SetUint64(v.val))
+	}
+	d := in.Sub(in, out)
+	if d.Sign() <= 0 {
+		return 0
+	}
+	if !d.IsUint64() {
+		return d.Mod(d, new(big.Int).Lsh(big.NewInt(1), 64)).Uint64()
+	}
+	return d.Uint64()
+}
+
+func ecBurnProgram(k int) []byte {
+	switch k {
+	case 1:
+		p, _ := vmutil.RetireProgram([]byte("burnt by the harness"))
+		return p
+	case 2:
+		p, _ := vmutil.RegisterProgram([]byte{0x51, 0x51, 0x9a})
+		return p
+	}
+	return []byte{byte(vm.OP_FAIL)}
 }
 
 type ecOut struct {
@@ -163,12 +202,17 @@ func ecTxReal(t ecTx) *types.Tx {
 	if t.out > 0 {
 		td.Outputs = append(td.Outputs, types.NewOriginalTxOutput(*consensus.BTMAssetID, t.out, []byte{0x51}, nil))
 	}
+	if t.burn > 0 {
+		td.Outputs = append(td.Outputs, types.NewOriginalTxOutput(*consensus.BTMAssetID, t.burn, ecBurnProgram(t.burnK), nil))
+	}
 	return &types.Tx{TxData: td, Tx: types.MapTx(&td)}
 }
 
-// ecBlock builds the real block and the op-line suffix `<outs0> {T <vetoes> <votes> <fee>}*`
-// (fee is what the real TxData.Fee() returns).
-func ecBlock(prev bc.Hash, height, ts uint64, outs0 []ecOut, hasCoinbase bool, txs []ecTx) (*types.Block, string) {
+// ecBlock builds the real block and the op-line suffix `<outs0> {T <vetoes> <votes> <fee> [B<burn>:<kind>]}*`.
+// The fee written to the op line (what the MODEL adds to the reward table) is computed by the
+// harness itself (inputs minus ALL outputs incl. retirements); `feeMismatch` reports a
+// transaction whose real TxData.Fee() differs from it.
+func ecBlock(prev bc.Hash, height, ts uint64, outs0 []ecOut, hasCoinbase bool, txs []ecTx) (blk *types.Block, suffix string, feeMismatch string) {
 	b := &types.Block{BlockHeader: types.BlockHeader{Version: 1, Height: height, Timestamp: ts, PreviousBlockHash: prev}}
 	var sb strings.Builder
 	if hasCoinbase {
@@ -195,17 +239,33 @@ func ecBlock(prev bc.Hash, height, ts uint64, outs0 []ecOut, hasCoinbase bool, t
 			sb.Reset()
 			sb.WriteString(ecOuts(o0))
 		}
-		fmt.Fprintf(&sb, " T %s %s %d", ecPairs(t.vetoes), ecPairs(t.votes), tx.Fee())
+		fee := t.ecFee()
+		if tx.Fee() != fee {
+			feeMismatch = fmt.Sprintf("tx %d: TxData.Fee()=%d, inputs-outputs=%d", i, tx.Fee(), fee)
+		}
+		fmt.Fprintf(&sb, " T %s %s %d", ecPairs(t.vetoes), ecPairs(t.votes), fee)
+		if t.burn > 0 {
+			fmt.Fprintf(&sb, " B%d:%d", t.burn, t.burnK)
+		}
 	}
-	return b, sb.String()
+	return b, sb.String(), feeMismatch
 }
 
 func ecParseTxs(w []string) []ecTx {
 	var out []ecTx
-	for i := 0; i+3 < len(w)+0 && w[i] == "T"; i += 4 {
+	for i := 0; i+3 < len(w) && w[i] == "T"; {
 		t := ecTx{vetoes: ecParsePairs(w[i+1]), votes: ecParsePairs(w[i+2])}
 		fee, _ := strconv.ParseUint(w[i+3], 10, 64)
-		// reproduce the recorded fee: fee = vetoes + spend - votes - out
+		i += 4
+		if i < len(w) && strings.HasPrefix(w[i], "B") {
+			f := strings.Split(w[i][1:], ":")
+			t.burn, _ = strconv.ParseUint(f[0], 10, 64)
+			if len(f) > 1 {
+				t.burnK, _ = strconv.Atoi(f[1])
+			}
+			i++
+		}
+		// reproduce the recorded fee: fee = vetoes + spend - votes - out - burn
 		var in, outv uint64
 		for _, v := range t.vetoes {
 			in += v.val
@@ -213,7 +273,8 @@ func ecParseTxs(w []string) []ecTx {
 		for _, v := range t.votes {
 			outv += v.val
 		}
-		if in+0 >= outv+fee {
+		outv += t.burn
+		if in >= outv+fee {
 			t.out = in - outv - fee
 		} else {
 			t.spend = outv + fee - in
